@@ -9,6 +9,7 @@ import (
 	"fmt"
 	"io"
 	"net/http"
+	"path"
 	"strings"
 	"testing"
 
@@ -79,6 +80,12 @@ func paramSchema(p ParamSpec) M {
 	return s
 }
 
+func branchSchema(kind, prop, dflt string) M {
+	return M{"type": "object", "required": []any{"kind"}, "properties": M{"kind": M{"type": "string", "enum": []any{kind}}, prop: M{"type": "string", "default": dflt}}}
+}
+
+var branchComps = M{"BX": branchSchema("x", "bx", "dbx"), "BY": branchSchema("y", "by", "dby")}
+
 func bodySchema(f string) M {
 	props := M{"id": M{"type": "integer"}}
 	s := M{"type": "object", "properties": props}
@@ -103,6 +110,11 @@ func bodySchema(f string) M {
 	}
 	if strings.Contains(f, "x") {
 		s["oneOf"] = []any{branch("x", "bx", "dbx"), branch("y", "by", "dby")}
+		if strings.Contains(f, "d") {
+			// the same choice made through a discriminator with an explicit mapping to components
+			s["oneOf"] = []any{M{"$ref": "#/components/schemas/BX"}, M{"$ref": "#/components/schemas/BY"}}
+			s["discriminator"] = M{"propertyName": "kind", "mapping": M{"x": "#/components/schemas/BX", "y": "#/components/schemas/BY"}}
+		}
 	}
 	if strings.Contains(f, "y") {
 		s["anyOf"] = []any{branch("x", "cx", "dcx"), branch("y", "cy", "dcy")}
@@ -129,6 +141,9 @@ func inject(s M, v any) any {
 			if l, ok := s[comp].([]any); ok {
 				for _, m := range l {
 					ms := m.(M)
+					if r, ok := ms["$ref"].(string); ok {
+						ms = branchComps[path.Base(r)].(M)
+					}
 					kindEnum := ms["properties"].(M)["kind"].(M)["enum"].([]any)[0]
 					if out["kind"] == kindEnum {
 						out = inject(ms, out).(map[string]any)
@@ -179,7 +194,7 @@ func build(c Case) (*openapi3.T, error) {
 	if c.HasBody {
 		op["requestBody"] = M{"content": M{"application/json": M{"schema": bodySchema(c.Features)}}}
 	}
-	comps := M{}
+	comps := M{"schemas": jv.Clone(branchComps)}
 	if c.Auth != "none" {
 		op["security"] = []any{M{"key": []any{}}}
 		comps["securitySchemes"] = M{"key": M{"type": "apiKey", "name": "X-Key", "in": "header"}}
@@ -527,7 +542,7 @@ func gen(t *rapid.T) Case {
 	c.HasBody = rapid.IntRange(0, 4).Draw(t, "hasbody") > 0
 	if c.HasBody {
 		feats := ""
-		for _, f := range "pnoarxy" {
+		for _, f := range "pnoarxyd" {
 			if rapid.IntRange(0, 2).Draw(t, "feat:"+string(f)) == 0 {
 				feats += string(f)
 			}
